@@ -16,10 +16,16 @@
 EXTENDS FlowGraphP
 
 CONSTANTS
-    CyclesFromEveryNode,   \* TRUE: the circular-connection check starts at every node (repaired loader);
-                           \* FALSE: only at the targets of the root's edges, skipped for a rootless response direction
-    RefDepthChecked        \* TRUE: a flow reference chain that comes back to a flow being incorporated is an error (repaired);
-                           \* FALSE: incorporateFlow recurses without end
+    CyclesFromEveryNode,   \* TRUE: the circular-connection check of a response direction starts at every node (the code since
+                           \*       fix 08cdb66: a response walk can be entered at any processor that answered the request);
+                           \* FALSE: only at the root's edges, skipped for a rootless response direction (the code before)
+    ExitLinked,            \* TRUE (since the flow-exit fix): inside a flow incorporated by `from: flow X at end -> to: processor p`
+                           \*       a connection to the stream end leads to p, in both directions; inside a flow incorporated
+                           \*       by `to: flow X at start` it stays a connection to the stream end;
+                           \* FALSE (before): request direction: leads to the current root (error when there is none),
+                           \*       response direction: always the stream end
+    RefDepthChecked        \* TRUE: a flow reference chain that comes back to a flow being incorporated is an error (since 14dde2f);
+                           \* FALSE: incorporateFlow recurses without end (the code before)
 
 \* conditions a connection `from: processor` may name, per direction (CheckCondition on the registry definitions)
 DeclOuts(kind, dir) ==
@@ -44,7 +50,8 @@ StructOK(fl) ==
 \*   nodes : <<[key, own]>>   own = name of the flow whose connections created the node (flowGraphName)
 \*   edges : <<[from, c, t]>> in insertion order; t = target key, "" = the stream end
 \*   root  : key of the entry node ("" = none);  fr : foreign root left by an incorporated flow ("" = none)
-EmptyD(fname, dir) == [fname |-> fname, dir |-> dir, nodes |-> <<>>, edges |-> <<>>, root |-> "", fr |-> "", err |-> ""]
+\*   ex    : processor that follows the flow being incorporated ("" = none)
+EmptyD(fname, dir) == [fname |-> fname, dir |-> dir, nodes |-> <<>>, edges |-> <<>>, root |-> "", fr |-> "", ex |-> "", err |-> ""]
 
 HasNode(d, k) == \E i \in 1..Len(d.nodes) : d.nodes[i].key = k
 OwnOf(d, k) == d.nodes[CHOOSE i \in 1..Len(d.nodes) : d.nodes[i].key = k].own
@@ -94,23 +101,25 @@ BuildConn(cfg, cur, c, d, stack) ==
     ELSE IF t.k = "P" /\ f.k = "F" /\ f.at = "end" THEN                    \* connectFlowToProcessor
         LET d1 == GetOrCreate(cfg, cur, d, t.n) IN
         IF d1.err # "" THEN d1
-        ELSE LET d2 == Incorporate(cfg, f.n, [d1 EXCEPT !.root = t.n], stack) IN
+        ELSE LET d2 == Incorporate(cfg, f.n, [d1 EXCEPT !.root = t.n, !.ex = t.n], stack) IN
              IF d2.err # "" THEN d2
              ELSE IF d2.fr = "" THEN Err(d2, "foreign-root-not-found")
-             ELSE [d2 EXCEPT !.root = d2.fr, !.fr = ""]
+             ELSE [d2 EXCEPT !.root = d2.fr, !.fr = "", !.ex = d.ex]
     ELSE IF f.k = "P" /\ t.k = "S" /\ t.at = "end" THEN                    \* connectProcessorToStream
         LET d1 == GetOrCreate(cfg, cur, d, f.n) IN
         IF d1.err # "" THEN d1
+        ELSE IF ExitLinked
+             THEN (IF OwnOf(d1, f.n) # d1.fname /\ d1.ex # "" THEN AddEdge(d1, f.n, f.c, d1.ex) ELSE AddEdge(d1, f.n, f.c, ""))
         ELSE IF d1.dir = "req" /\ OwnOf(d1, f.n) # d1.fname
              THEN (IF d1.root = "" THEN Err(d1, "root-not-found") ELSE AddEdge(d1, f.n, f.c, d1.root))
              ELSE AddEdge(d1, f.n, f.c, "")
     ELSE IF f.k = "P" /\ t.k = "F" /\ t.at = "start" THEN                  \* connectProcessorToFlow
         LET d1 == GetOrCreate(cfg, cur, d, f.n) IN
         IF d1.err # "" THEN d1
-        ELSE LET d2 == Incorporate(cfg, t.n, d1, stack) IN
+        ELSE LET d2 == Incorporate(cfg, t.n, [d1 EXCEPT !.ex = ""], stack) IN
              IF d2.err # "" THEN d2
              ELSE IF d2.fr = "" THEN Err(d2, "foreign-root-not-found")
-             ELSE [AddEdge(d2, f.n, f.c, d2.fr) EXCEPT !.fr = ""]
+             ELSE [AddEdge(d2, f.n, f.c, d2.fr) EXCEPT !.fr = "", !.ex = d.ex]
     ELSE IF f.k = "S" /\ t.k = "S" THEN d                                  \* stream -> stream
     ELSE Err(d, "invalid-connection")
 
@@ -138,8 +147,9 @@ DfsOK(d, n, vis, c) ==
 NoCycleFrom(d, n) == LET es == EdgesOf(d, n) IN \A i \in 1..Len(es) : es[i].t = "" \/ DfsOK(d, es[i].t, {}, es[i].c)
 
 CycleCheckOK(d) ==
-    IF CyclesFromEveryNode THEN \A n \in NodeKeys(d) : NoCycleFrom(d, n)
-    ELSE IF d.dir = "res" /\ d.root = "" THEN TRUE
+    IF d.dir = "req" THEN NoCycleFrom(d, d.root)
+    ELSE IF CyclesFromEveryNode THEN \A n \in NodeKeys(d) : NoCycleFrom(d, n)
+    ELSE IF d.root = "" THEN TRUE
     ELSE NoCycleFrom(d, d.root)
 
 ValidateDir(d) ==
